@@ -680,6 +680,12 @@ func (s *Scn) do(op string) Outcome {
 		}
 		err := s.lsNew()
 		return Outcome{Err: err}
+	case "RF": // arm a one-shot failure of the next upload to the replica: RF:before | RF:mid
+		if !s.Cfg.ReplicaFaults || !s.LSOpen || s.rfArmed != "" || (arg != "before" && arg != "mid") {
+			return ill
+		}
+		s.rfArmed = arg
+		return Outcome{}
 	case "LF": // arm a one-shot ENOSPC on the next local LTX staging file: LF:open | LF:write | LF:sync
 		if s.DB == nil || !s.LSOpen || (s.lfArmed != nil && s.lfArmed()) {
 			return ill
